@@ -1117,7 +1117,7 @@ func vtMonHeartbeat(t *testing.T, m *vtMon, oneWay time.Duration) {
 		for i := 0; i < 8; i++ {
 			info[i] = byte(ts >> uint(56-8*i))
 		}
-		body := append([]byte{0, 1, 0, 12}, info...)            // Heartbeat Info parameter
+		body := append([]byte{0, 1, 0, 12}, info...)               // Heartbeat Info parameter
 		hb := append([]byte{byte(ctHeartbeat), 0, 0, 16}, body...) // chunk header + parameter
 		a0.lock.Lock()
 		hdr := []byte{byte(a0.sourcePort >> 8), byte(a0.sourcePort), byte(a0.destinationPort >> 8), byte(a0.destinationPort),
